@@ -636,6 +636,8 @@ host_write_s2f	(SF_PRIVATE *psf, const short *ptr, sf_count_t len)
 /* Erik */
 	scale = (psf->scale_int_float == 0) ? 1.0 : 1.0 / 0x8000 ;
 	bufferlen = ARRAY_LEN (ubuf.fbuf) ;
+	/* Whole frames only : the peak update walks the buffer channel by channel. */
+	bufferlen -= bufferlen % psf->sf.channels ;
 
 	while (len > 0)
 	{	if (len < bufferlen)
@@ -667,6 +669,8 @@ host_write_i2f	(SF_PRIVATE *psf, const int *ptr, sf_count_t len)
 
 	scale = (psf->scale_int_float == 0) ? 1.0 : 1.0 / (8.0 * 0x10000000) ;
 	bufferlen = ARRAY_LEN (ubuf.fbuf) ;
+	/* Whole frames only : the peak update walks the buffer channel by channel. */
+	bufferlen -= bufferlen % psf->sf.channels ;
 
 	while (len > 0)
 	{	if (len < bufferlen)
@@ -726,6 +730,8 @@ host_write_d2f	(SF_PRIVATE *psf, const double *ptr, sf_count_t len)
 	sf_count_t	total = 0 ;
 
 	bufferlen = ARRAY_LEN (ubuf.fbuf) ;
+	/* Whole frames only : the peak update walks the buffer channel by channel. */
+	bufferlen -= bufferlen % psf->sf.channels ;
 
 	while (len > 0)
 	{	if (len < bufferlen)
@@ -880,6 +886,8 @@ replace_write_s2f	(SF_PRIVATE *psf, const short *ptr, sf_count_t len)
 
 	scale = (psf->scale_int_float == 0) ? 1.0 : 1.0 / 0x8000 ;
 	bufferlen = ARRAY_LEN (ubuf.fbuf) ;
+	/* Whole frames only : the peak update walks the buffer channel by channel. */
+	bufferlen -= bufferlen % psf->sf.channels ;
 
 	while (len > 0)
 	{	if (len < bufferlen)
@@ -913,6 +921,8 @@ replace_write_i2f	(SF_PRIVATE *psf, const int *ptr, sf_count_t len)
 
 	scale = (psf->scale_int_float == 0) ? 1.0 : 1.0 / (8.0 * 0x10000000) ;
 	bufferlen = ARRAY_LEN (ubuf.fbuf) ;
+	/* Whole frames only : the peak update walks the buffer channel by channel. */
+	bufferlen -= bufferlen % psf->sf.channels ;
 
 	while (len > 0)
 	{	if (len < bufferlen)
@@ -977,6 +987,8 @@ replace_write_d2f	(SF_PRIVATE *psf, const double *ptr, sf_count_t len)
 	sf_count_t	total = 0 ;
 
 	bufferlen = ARRAY_LEN (ubuf.fbuf) ;
+	/* Whole frames only : the peak update walks the buffer channel by channel. */
+	bufferlen -= bufferlen % psf->sf.channels ;
 
 	while (len > 0)
 	{	if (len < bufferlen)
